@@ -4,6 +4,7 @@ CONSTANTS
  Cap <- CapSmall
  HasArray <- ArrAll
  FbHasTryAllocArray = FALSE
+ SegByTotal = TRUE
  MaxLive = 4
 INVARIANT ReleasedAsAllocated
 VIEW View
